@@ -227,7 +227,89 @@ Theorem C02_tenant_own_keys : forall verify (hint : bool) allowed c c' alg,
 Proof. exact tenant_own_keys. Qed.
 Print Assumptions C02_tenant_own_keys.
 
-(* the property predicate evaluated by the correspondence run holds of the model on every input *)
-Theorem C02_spec_model : forall i, spec i (model i) = true.
+(* WHOSE request object.  ParseRequestObject on a storage in which no client has
+   the empty client id hands back claims only if the object names the client of
+   the AUTHORIZATION REQUEST it is attached to as its issuer and its one signature
+   verifies under the key the storage holds for (that client, kid of the header).
+   An object that names another registered client as issuer - with a client_id
+   claim or without one - and is signed with that other client's key is not
+   believed. *)
+Theorem C02_request_object_client_bound : forall verify a issuer x store t m c' alg,
+  forallb (fun y => negb (fst (fst y) =s "")) store = true ->
+  parse_request_object verify a issuer (KSProfile x store) t m = Accept c' alg ->
+  exists bytes c e key,
+    m = MidOk bytes c /\ c' = ro_project a c /\ c_iss c = a_client a
+    /\ tok_sigs t = [e] /\ tok_payload t = Some bytes
+    /\ In (a_client a, se_kid e, key) store
+    /\ verify key e bytes = true.
+Proof. exact request_object_client_bound. Qed.
+Print Assumptions C02_request_object_client_bound.
+
+(* The per-client storage key set (op.jwtProfileKeySet): CheckSignature succeeds
+   if (complete) and only if (sound) the token carries one signature with an
+   allowed algorithm over the parsed bytes that verifies under the key the storage
+   returns for (client, kid of the header - possibly none).  The key id written
+   inside that JWK occurs in neither statement ... *)
+Theorem C02_profile_keyset_complete : forall verify allowed client store t e p k,
+  tok_sigs t = [e] -> tok_payload t = Some p ->
+  string_in (se_alg e) (effective_algs allowed) = true ->
+  profile_lookup store client (se_kid e) = Some k -> verify k e p = true ->
+  check_signature verify allowed (KSProfile client store) t p = Ok (se_alg e).
+Proof. exact profile_keyset_complete. Qed.
+Print Assumptions C02_profile_keyset_complete.
+
+Theorem C02_profile_keyset_sound : forall verify allowed client store t p alg,
+  check_signature verify allowed (KSProfile client store) t p = Ok alg ->
+  exists e k, tok_sigs t = [e] /\ tok_payload t = Some p /\ alg = se_alg e
+    /\ profile_lookup store client (se_kid e) = Some k /\ verify k e p = true.
+Proof. exact profile_keyset_sound. Qed.
+Print Assumptions C02_profile_keyset_sound.
+
+(* ... and it is no input: rewriting the key ids inside the stored JWKs by any
+   function (the registration left as it is) changes no answer, for every
+   signature check that looks at key type and material only *)
+Theorem C02_profile_key_id_no_input : forall verify f allowed client store t p,
+  (forall k id e q, verify (mkJwk id (k_use k) (k_ty k) (k_mat k)) e q = verify k e q) ->
+  match check_signature verify allowed (KSProfile client (rekid f store)) t p,
+        check_signature verify allowed (KSProfile client store) t p with
+  | Ok a, Ok b => a = b
+  | Err a, Err b => a = b
+  | _, _ => False
+  end.
+Proof. exact profile_key_id_no_input. Qed.
+Print Assumptions C02_profile_key_id_no_input.
+
+(* ONE provider (op.NewProvider with any key-set / verifier options, one storage
+   with signing keys and registered client keys), ANY sequence of calls to the
+   verifiers it hands out (Provider.AccessTokenVerifier / IDTokenHintVerifier /
+   JWTProfileVerifier): claims handed back at position n are justified by one
+   signature that verifies under a key of the key set, with an algorithm of the
+   allow-list, configured for the verifier kind of step n - for an assertion the
+   key registered for (the issuer it names, kid of its header).  No other step
+   occurs in the justification: which verifier was handed out first and which
+   client's key was looked up before are no inputs. *)
+Theorem C02_provider_seq_justified : forall verify p store steps n s o c' alg,
+  nth_error steps n = Some s ->
+  nth_error (map (run_provider_step verify p store) steps) n = Some o ->
+  outcome_claims o = Some (c', alg) ->
+  exists bytes e key,
+    ps_mid s = MidOk bytes c' /\ tok_sigs (ps_tok s) = [e] /\ tok_payload (ps_tok s) = Some bytes
+    /\ verify key e bytes = true
+    /\ match ps_kind s with
+       | PAssertion => In (c_iss c', se_kid e, key) store /\ c_sub c' = c_iss c'
+       | PAccess =>
+           string_in (se_alg e) (effective_algs (p_at_algs p)) = true
+           /\ In key (ks_keys (match p_at_keyset p with Some k => k | None => KSOpenID (p_storage_keys p) end))
+       | PHint =>
+           string_in (se_alg e) (effective_algs (p_hint_algs p)) = true
+           /\ In key (ks_keys (match p_hint_keyset p with Some k => k | None => KSOpenID (p_storage_keys p) end))
+       end.
+Proof. exact provider_seq_justified. Qed.
+Print Assumptions C02_provider_seq_justified.
+
+(* the property predicate evaluated by the correspondence run holds of the model on
+   every input whose storage has no client with the empty client id (wf; only
+   request-object inputs are constrained) *)
+Theorem C02_spec_model : forall i, wf i = true -> spec i (model i) = true.
 Proof. exact spec_model. Qed.
 Print Assumptions C02_spec_model.
